@@ -259,6 +259,34 @@ def bufferread_pairing(c):
     return rows
 
 
+def read_slice_width_status(c):
+    """Buffer::read hands read_from_buffer exactly data[cursor .. cursor + size_of::<T>()]"""
+    f = next((f for f in c.fns if f["path"].endswith("buffer::{impl#0}::read")), None)
+    if f is None:
+        return False, "Buffer::read not found"
+    b = Body(f)
+    for bi, blk in enumerate(b.blocks):
+        t = blk["term"]
+        if t and t["k"] == "call" and "fn" in t and callee_key(t["fn"]).startswith("BufferRead::read_from_buffer"):
+            r = b.render_operand(t["args"][0], 10, names=False).replace(" ", "")
+            want = "&*Index::index@[u8]@Range<usize>(&**arg1.data,Range::Range{*arg1.cursor,(*arg1.cursor+mem::size_of()).0})"
+            if r == want:
+                return True, "read_from_buffer receives data[cursor .. cursor + size_of::<T>()]"
+            return False, "read_from_buffer receives %s" % r
+    return False, "Buffer::read no longer calls read_from_buffer"
+
+
+def pairing_status(c):
+    rows = bufferread_pairing(c)
+    bad = [r for r in rows if not r[1]]
+    return (not bad and len(rows) >= 10), ("type/reader pairing holds for %d impls" % len(rows) if not bad else "pairing broken: %s" % bad[0][2])
+
+
+def rules_for(c):
+    return {"INV-CURSOR": lambda: inv_cursor_status(c), "DECODER-CONTRACT": lambda: decoder_contract_status(c),
+            "READ-SLICE-WIDTH": lambda: read_slice_width_status(c), "PAIRING": lambda: pairing_status(c)}
+
+
 def varint_rules(c):
     rows = []
     an = K.analysis(c)
@@ -294,7 +322,7 @@ def varint_rules(c):
 def run(tier, config):
     rep = Report("C17")
     c = K.crate("gamedig-lib", config)
-    rules = {"INV-CURSOR": lambda: inv_cursor_status(c), "DECODER-CONTRACT": lambda: decoder_contract_status(c)}
+    rules = rules_for(c)
     for name, ok, detail, at in decoder_contract(c):
         rep.add("%s|DECODER-CONTRACT|%s" % (name, re.sub(r"\d+", "N", detail)[:40]) if not ok else "%s|DECODER-CONTRACT" % name,
                 "C17:decoder-contract", ok, detail, at)
